@@ -267,3 +267,278 @@ package packet
 //@     modifies builder
 //@     invariant -1 <= rangeindex && rangeindex < int(length) && sblen(builder) == rangeindex+1
 //@     invariant forall k in 0..rangeindex+1 :: sbchar(builder, k) == int32(rawBytes[k]) && rawBytes[k] != 0
+//@ func ParseRTURequest(data []byte) (res Request, err error)
+//@   safety[C10]
+//@   noOverread[C10]
+//@   modifies[C10] nothing
+//@   ensures[C10] err != nil ==> nilish(res)
+
+//@ func ParseRTURequestWithCRC(data []byte) (res Response, err error)
+//@   safety[C10]
+//@   noOverread[C10]
+//@   modifies[C10] nothing
+//@   ensures[C10] err != nil ==> nilish(res)
+
+//@ func ParseRTUResponse(data []byte) (res Response, err error)
+//@   safety[C10]
+//@   noOverread[C10]
+//@   modifies[C10] nothing
+//@   ensures[C10] err != nil ==> nilish(res)
+
+//@ func ParseRTUResponseWithCRC(data []byte) (res Response, err error)
+//@   safety[C10]
+//@   noOverread[C10]
+//@   modifies[C10] nothing
+//@   ensures[C10] err != nil ==> nilish(res)
+
+//@ func ParseReadCoilsRequestRTU(data []byte) (res *ReadCoilsRequestRTU, err error)
+//@   safety[C10]
+//@   noOverread[C10]
+//@   modifies[C10] nothing
+//@   ensures[C10] err != nil ==> res == nil
+
+//@ func ParseReadCoilsRequestTCP(data []byte) (res *ReadCoilsRequestTCP, err error)
+//@   safety[C10]
+//@   noOverread[C10]
+//@   modifies[C10] nothing
+//@   ensures[C10] err != nil ==> res == nil
+
+//@ func ParseReadCoilsResponseRTU(data []byte) (res *ReadCoilsResponseRTU, err error)
+//@   safety[C10]
+//@   noOverread[C10]
+//@   modifies[C10] nothing
+//@   ensures[C10] err != nil ==> res == nil
+
+//@ func ParseReadCoilsResponseTCP(data []byte) (res *ReadCoilsResponseTCP, err error)
+//@   safety[C10]
+//@   noOverread[C10]
+//@   modifies[C10] nothing
+//@   ensures[C10] err != nil ==> res == nil
+
+//@ func ParseReadDiscreteInputsRequestRTU(data []byte) (res *ReadDiscreteInputsRequestRTU, err error)
+//@   safety[C10]
+//@   noOverread[C10]
+//@   modifies[C10] nothing
+//@   ensures[C10] err != nil ==> res == nil
+
+//@ func ParseReadDiscreteInputsRequestTCP(data []byte) (res *ReadDiscreteInputsRequestTCP, err error)
+//@   safety[C10]
+//@   noOverread[C10]
+//@   modifies[C10] nothing
+//@   ensures[C10] err != nil ==> res == nil
+
+//@ func ParseReadDiscreteInputsResponseRTU(data []byte) (res *ReadDiscreteInputsResponseRTU, err error)
+//@   safety[C10]
+//@   noOverread[C10]
+//@   modifies[C10] nothing
+//@   ensures[C10] err != nil ==> res == nil
+
+//@ func ParseReadDiscreteInputsResponseTCP(data []byte) (res *ReadDiscreteInputsResponseTCP, err error)
+//@   safety[C10]
+//@   noOverread[C10]
+//@   modifies[C10] nothing
+//@   ensures[C10] err != nil ==> res == nil
+
+//@ func ParseReadHoldingRegistersRequestRTU(data []byte) (res *ReadHoldingRegistersRequestRTU, err error)
+//@   safety[C10]
+//@   noOverread[C10]
+//@   modifies[C10] nothing
+//@   ensures[C10] err != nil ==> res == nil
+
+//@ func ParseReadHoldingRegistersRequestTCP(data []byte) (res *ReadHoldingRegistersRequestTCP, err error)
+//@   safety[C10]
+//@   noOverread[C10]
+//@   modifies[C10] nothing
+//@   ensures[C10] err != nil ==> res == nil
+
+//@ func ParseReadHoldingRegistersResponseRTU(data []byte) (res *ReadHoldingRegistersResponseRTU, err error)
+//@   safety[C10]
+//@   noOverread[C10]
+//@   modifies[C10] nothing
+//@   ensures[C10] err != nil ==> res == nil
+
+//@ func ParseReadHoldingRegistersResponseTCP(data []byte) (res *ReadHoldingRegistersResponseTCP, err error)
+//@   safety[C10]
+//@   noOverread[C10]
+//@   modifies[C10] nothing
+//@   ensures[C10] err != nil ==> res == nil
+
+//@ func ParseReadInputRegistersRequestRTU(data []byte) (res *ReadInputRegistersRequestRTU, err error)
+//@   safety[C10]
+//@   noOverread[C10]
+//@   modifies[C10] nothing
+//@   ensures[C10] err != nil ==> res == nil
+
+//@ func ParseReadInputRegistersRequestTCP(data []byte) (res *ReadInputRegistersRequestTCP, err error)
+//@   safety[C10]
+//@   noOverread[C10]
+//@   modifies[C10] nothing
+//@   ensures[C10] err != nil ==> res == nil
+
+//@ func ParseReadInputRegistersResponseRTU(data []byte) (res *ReadInputRegistersResponseRTU, err error)
+//@   safety[C10]
+//@   noOverread[C10]
+//@   modifies[C10] nothing
+//@   ensures[C10] err != nil ==> res == nil
+
+//@ func ParseReadInputRegistersResponseTCP(data []byte) (res *ReadInputRegistersResponseTCP, err error)
+//@   safety[C10]
+//@   noOverread[C10]
+//@   modifies[C10] nothing
+//@   ensures[C10] err != nil ==> res == nil
+
+//@ func ParseReadServerIDRequestRTU(data []byte) (res *ReadServerIDRequestRTU, err error)
+//@   safety[C10]
+//@   noOverread[C10]
+//@   modifies[C10] nothing
+//@   ensures[C10] err != nil ==> res == nil
+
+//@ func ParseReadServerIDRequestTCP(data []byte) (res *ReadServerIDRequestTCP, err error)
+//@   safety[C10]
+//@   noOverread[C10]
+//@   modifies[C10] nothing
+//@   ensures[C10] err != nil ==> res == nil
+
+//@ func ParseReadServerIDResponseRTU(data []byte) (res *ReadServerIDResponseRTU, err error)
+//@   safety[C10]
+//@   noOverread[C10]
+//@   modifies[C10] nothing
+//@   ensures[C10] err != nil ==> res == nil
+
+//@ func ParseReadServerIDResponseTCP(data []byte) (res *ReadServerIDResponseTCP, err error)
+//@   safety[C10]
+//@   noOverread[C10]
+//@   modifies[C10] nothing
+//@   ensures[C10] err != nil ==> res == nil
+
+//@ func ParseReadWriteMultipleRegistersRequestRTU(data []byte) (res *ReadWriteMultipleRegistersRequestRTU, err error)
+//@   safety[C10]
+//@   noOverread[C10]
+//@   modifies[C10] nothing
+//@   ensures[C10] err != nil ==> res == nil
+
+//@ func ParseReadWriteMultipleRegistersRequestTCP(data []byte) (res *ReadWriteMultipleRegistersRequestTCP, err error)
+//@   safety[C10]
+//@   noOverread[C10]
+//@   modifies[C10] nothing
+//@   ensures[C10] err != nil ==> res == nil
+
+//@ func ParseReadWriteMultipleRegistersResponseRTU(data []byte) (res *ReadWriteMultipleRegistersResponseRTU, err error)
+//@   safety[C10]
+//@   noOverread[C10]
+//@   modifies[C10] nothing
+//@   ensures[C10] err != nil ==> res == nil
+
+//@ func ParseReadWriteMultipleRegistersResponseTCP(data []byte) (res *ReadWriteMultipleRegistersResponseTCP, err error)
+//@   safety[C10]
+//@   noOverread[C10]
+//@   modifies[C10] nothing
+//@   ensures[C10] err != nil ==> res == nil
+
+//@ func ParseTCPRequest(data []byte) (res Request, err error)
+//@   safety[C10]
+//@   noOverread[C10]
+//@   modifies[C10] nothing
+//@   ensures[C10] err != nil ==> nilish(res)
+
+//@ func ParseTCPResponse(data []byte) (res Response, err error)
+//@   safety[C10]
+//@   noOverread[C10]
+//@   modifies[C10] nothing
+//@   ensures[C10] err != nil ==> nilish(res)
+
+//@ func ParseWriteMultipleCoilsRequestRTU(data []byte) (res *WriteMultipleCoilsRequestRTU, err error)
+//@   safety[C10]
+//@   noOverread[C10]
+//@   modifies[C10] nothing
+//@   ensures[C10] err != nil ==> res == nil
+
+//@ func ParseWriteMultipleCoilsRequestTCP(data []byte) (res *WriteMultipleCoilsRequestTCP, err error)
+//@   safety[C10]
+//@   noOverread[C10]
+//@   modifies[C10] nothing
+//@   ensures[C10] err != nil ==> res == nil
+
+//@ func ParseWriteMultipleCoilsResponseRTU(data []byte) (res *WriteMultipleCoilsResponseRTU, err error)
+//@   safety[C10]
+//@   noOverread[C10]
+//@   modifies[C10] nothing
+//@   ensures[C10] err != nil ==> res == nil
+
+//@ func ParseWriteMultipleCoilsResponseTCP(data []byte) (res *WriteMultipleCoilsResponseTCP, err error)
+//@   safety[C10]
+//@   noOverread[C10]
+//@   modifies[C10] nothing
+//@   ensures[C10] err != nil ==> res == nil
+
+//@ func ParseWriteMultipleRegistersRequestRTU(data []byte) (res *WriteMultipleRegistersRequestRTU, err error)
+//@   safety[C10]
+//@   noOverread[C10]
+//@   modifies[C10] nothing
+//@   ensures[C10] err != nil ==> res == nil
+
+//@ func ParseWriteMultipleRegistersRequestTCP(data []byte) (res *WriteMultipleRegistersRequestTCP, err error)
+//@   safety[C10]
+//@   noOverread[C10]
+//@   modifies[C10] nothing
+//@   ensures[C10] err != nil ==> res == nil
+
+//@ func ParseWriteMultipleRegistersResponseRTU(data []byte) (res *WriteMultipleRegistersResponseRTU, err error)
+//@   safety[C10]
+//@   noOverread[C10]
+//@   modifies[C10] nothing
+//@   ensures[C10] err != nil ==> res == nil
+
+//@ func ParseWriteMultipleRegistersResponseTCP(data []byte) (res *WriteMultipleRegistersResponseTCP, err error)
+//@   safety[C10]
+//@   noOverread[C10]
+//@   modifies[C10] nothing
+//@   ensures[C10] err != nil ==> res == nil
+
+//@ func ParseWriteSingleCoilRequestRTU(data []byte) (res *WriteSingleCoilRequestRTU, err error)
+//@   safety[C10]
+//@   noOverread[C10]
+//@   modifies[C10] nothing
+//@   ensures[C10] err != nil ==> res == nil
+
+//@ func ParseWriteSingleCoilRequestTCP(data []byte) (res *WriteSingleCoilRequestTCP, err error)
+//@   safety[C10]
+//@   noOverread[C10]
+//@   modifies[C10] nothing
+//@   ensures[C10] err != nil ==> res == nil
+
+//@ func ParseWriteSingleCoilResponseRTU(data []byte) (res *WriteSingleCoilResponseRTU, err error)
+//@   safety[C10]
+//@   noOverread[C10]
+//@   modifies[C10] nothing
+//@   ensures[C10] err != nil ==> res == nil
+
+//@ func ParseWriteSingleCoilResponseTCP(data []byte) (res *WriteSingleCoilResponseTCP, err error)
+//@   safety[C10]
+//@   noOverread[C10]
+//@   modifies[C10] nothing
+//@   ensures[C10] err != nil ==> res == nil
+
+//@ func ParseWriteSingleRegisterRequestRTU(data []byte) (res *WriteSingleRegisterRequestRTU, err error)
+//@   safety[C10]
+//@   noOverread[C10]
+//@   modifies[C10] nothing
+//@   ensures[C10] err != nil ==> res == nil
+
+//@ func ParseWriteSingleRegisterRequestTCP(data []byte) (res *WriteSingleRegisterRequestTCP, err error)
+//@   safety[C10]
+//@   noOverread[C10]
+//@   modifies[C10] nothing
+//@   ensures[C10] err != nil ==> res == nil
+
+//@ func ParseWriteSingleRegisterResponseRTU(data []byte) (res *WriteSingleRegisterResponseRTU, err error)
+//@   safety[C10]
+//@   noOverread[C10]
+//@   modifies[C10] nothing
+//@   ensures[C10] err != nil ==> res == nil
+
+//@ func ParseWriteSingleRegisterResponseTCP(data []byte) (res *WriteSingleRegisterResponseTCP, err error)
+//@   safety[C10]
+//@   noOverread[C10]
+//@   modifies[C10] nothing
+//@   ensures[C10] err != nil ==> res == nil
